@@ -38,6 +38,7 @@ type CallEvent struct {
 	Havoc  bool // loop-head marker: calls to these designators may have happened an unknown number of times
 	HavocVals map[string]Term // one stable unknown per (designator, result index) of a havoc marker
 	Seq    int
+	Post   *State // state when the call returned; only kept for designators named in an at_return()
 }
 
 // MemDeriv describes how a fresh memory constant relates to an older memory.
